@@ -10,7 +10,7 @@ usage: fuzz_campaign.py <target> <runs_per_worker> [--workers N] [--no-build]
 * the oracle is inside the target (tfv::fuzzentry): a violation writes /verif/corpus/<ID>/fail-*.json and aborts;
 * merges what was covered into /verif/evidence/<ID>.json under coverage.fuzz_campaigns.<target>;
 * prints `VIOLATION property=<ID> replay=<path>` and exits 1 on a violation, exits 2 when the campaign is inconclusive
-  (build failure, libFuzzer timeout / out-of-memory report, harness self-check), exits 0 otherwise.
+  (build failure, a worker that keeps hitting libFuzzer's timeout / memory limit, harness self-check), exits 0 otherwise.
 libFuzzer is pinned by -seed/-runs only approximately; the saved input is the reproducible unit.
 """
 import glob, json, os, random, re, shutil, subprocess, sys, time
@@ -131,39 +131,59 @@ def main():
     max_len = {"c10-text": 1200, "c19-text": 3000, "c16-json": 300, "c16-ron": 300}.get(target, 1000)
     before = set(glob.glob(f"{OUT}/corpus/{prop}/fail-*.json"))
     t0 = time.time()
-    procs = []
-    for j in range(workers):
+    from concurrent.futures import ThreadPoolExecutor
+
+    def run_worker(j):
+        """One worker = one corpus directory and one fixed number of runs. A libFuzzer timeout / out-of-memory report ends the
+        process; the offending input is abandoned (counted) and the worker is restarted on its corpus for the remaining runs."""
         cdir = f"{work}/corpus-{j}"
         n_seed = seed_corpus(target, cdir, seed * 1000 + j)
-        cmd = [binary, cdir, f"-runs={runs}", f"-seed={(seed * 1000 + j) % 2147483647 + 1}", f"-max_len={max_len}", "-len_control=0",
-               "-timeout=300", "-rss_limit_mb=6000", "-print_final_stats=1", f"-artifact_prefix={work}/artifact-{j}-"]
-        if dict_path:
-            cmd.append(f"-dict={dict_path}")
-        env = dict(os.environ, TFV_FUZZ_TARGET=target, TFV_FUZZ_STATS=f"{work}/stats-{j}.json", RUST_BACKTRACE="0")
-        log = open(f"{work}/log-{j}.txt", "w")
-        procs.append((j, subprocess.Popen(cmd, stdout=log, stderr=subprocess.STDOUT, env=env, cwd=work), n_seed))
-    results = []
-    for j, p, n_seed in procs:
-        rc = p.wait()
-        text = open(f"{work}/log-{j}.txt", errors="replace").read()
-        execs = 0
-        m = re.search(r"stat::number_of_executed_units:\s*(\d+)", text)
-        if m:
-            execs = int(m.group(1))
+        left, executed, restarts, abandoned = runs, 0, 0, 0
         cov = ft = corp = 0
-        for m in re.finditer(r"#\d+\s+\w+\s+cov: (\d+) ft: (\d+) corp: (\d+)", text):
-            cov, ft, corp = int(m.group(1)), int(m.group(2)), int(m.group(3))
-        results.append({"worker": j, "rc": rc, "executions": execs, "cov": cov, "ft": ft, "corpus": corp, "seed_inputs": n_seed,
-                        "violation": "FUZZ-VIOLATION" in text,
-                        "timeout_or_oom": bool(re.search(r"ERROR: libFuzzer: (timeout|out-of-memory)", text)),
-                        "self_check": "HARNESS-SELF-CHECK-FAILED" in text})
+        violation = self_check = False
+        rc = 0
+        text_all = ""
+        while left > 0 and restarts <= 25:
+            cmd = [binary, cdir, f"-runs={left}", f"-seed={(seed * 1000 + j + 7919 * restarts) % 2147483647 + 1}", f"-max_len={max_len}",
+                   "-len_control=0", "-timeout=60", "-rss_limit_mb=5000", "-print_final_stats=1", f"-artifact_prefix={work}/artifact-{j}-"]
+            if dict_path:
+                cmd.append(f"-dict={dict_path}")
+            env = dict(os.environ, TFV_FUZZ_TARGET=target, TFV_FUZZ_STATS=f"{work}/stats-{j}-{restarts}.json", RUST_BACKTRACE="0")
+            log_path = f"{work}/log-{j}-{restarts}.txt"
+            with open(log_path, "w") as log:
+                rc = subprocess.run(cmd, stdout=log, stderr=subprocess.STDOUT, env=env, cwd=work).returncode
+            text = open(log_path, errors="replace").read()
+            text_all += text
+            m = re.search(r"stat::number_of_executed_units:\s*(\d+)", text)
+            done = int(m.group(1)) if m else 0
+            for m in re.finditer(r"#\d+\s+\w+\s+cov: (\d+) ft: (\d+) corp: (\d+)", text):
+                cov, ft, corp = max(cov, int(m.group(1))), max(ft, int(m.group(2))), int(m.group(3))
+            executed += done
+            left -= max(done, 1)
+            violation = violation or "FUZZ-VIOLATION" in text
+            self_check = self_check or "HARNESS-SELF-CHECK-FAILED" in text
+            if violation:
+                break
+            if re.search(r"ERROR: libFuzzer: (timeout|out-of-memory)", text):
+                abandoned += 1
+                restarts += 1
+                continue
+            if rc != 0:
+                break
+            break
+        return {"worker": j, "rc": rc, "executions": executed, "cov": cov, "ft": ft, "corpus": corp, "seed_inputs": n_seed,
+                "violation": violation, "abandoned_inputs": abandoned, "restarts_exhausted": restarts > 25, "self_check": self_check,
+                "crashed_without_replay": rc != 0 and not violation and not re.search(r"ERROR: libFuzzer: (timeout|out-of-memory)", text_all[-4000:])}
+
+    with ThreadPoolExecutor(max_workers=workers) as pool:
+        results = list(pool.map(run_worker, range(workers)))
     wall = time.time() - t0
     # statistics written by the targets
     agg = {"executions": 0, "distinct_nontrivial_per_worker_sum": 0, "discarded_total": 0, "labels": {}, "discards": {},
            "known_finding_hits": {}, "samples": []}
-    for j in range(workers):
+    for path in sorted(glob.glob(f"{work}/stats-*.json")):
         try:
-            s = json.load(open(f"{work}/stats-{j}.json"))
+            s = json.load(open(path))
         except (OSError, ValueError):
             continue
         agg["distinct_nontrivial_per_worker_sum"] += s.get("distinct_nontrivial", 0)
@@ -182,8 +202,8 @@ def main():
                 violations.append(f)
         except (OSError, ValueError):
             pass
-    crashed_without_replay = [r for r in results if r["rc"] != 0 and not r["violation"] and not r["timeout_or_oom"]]
-    inconclusive = [r for r in results if r["timeout_or_oom"] or r["self_check"]] + crashed_without_replay
+    crashed_without_replay = [r for r in results if r["crashed_without_replay"]]
+    inconclusive = [r for r in results if r["restarts_exhausted"] or r["self_check"]] + crashed_without_replay
     campaign = {
         "engine": "libFuzzer (cargo-fuzz, nightly), coverage-guided, oracle inside the target",
         "target": target, "workers": workers, "runs_per_worker": runs, "executions": agg["executions"],
@@ -194,6 +214,8 @@ def main():
         "note_on_statistics": "label / discard counters are written by the target every 2000 executions, so they may lag the execution count by up to that many per worker",
         "discards": agg["discards"], "label_counts": agg["labels"], "known_finding_hits": agg["known_finding_hits"],
         "samples": agg["samples"], "violations": len(violations), "inconclusive_workers": len(inconclusive), "wall_s": round(wall, 1),
+        "inputs_abandoned_after_libfuzzer_timeout_or_oom": sum(r["abandoned_inputs"] for r in results),
+        "note_on_abandoned_inputs": "an input that needs more than 60 s or 5 GB ends its libFuzzer process; it is not a violation (generated queries have a heavy tail); the worker is restarted on its corpus for the remaining runs",
     }
     os.makedirs(f"{OUT}/evidence", exist_ok=True)
     ev_path = f"{OUT}/evidence/{prop}.json"
@@ -207,7 +229,8 @@ def main():
     ev["violations"] = int(ev.get("violations", 0)) + len(violations)
     json.dump(ev, open(ev_path, "w"), indent=2)
     print(f"fuzz target={target} property={prop} workers={workers} executions={agg['executions']} cov={campaign['edge_coverage_max']} "
-          f"ft={campaign['features_max']} violations={len(violations)} inconclusive_workers={len(inconclusive)} wall_s={wall:.1f}")
+          f"ft={campaign['features_max']} violations={len(violations)} abandoned_inputs={campaign['inputs_abandoned_after_libfuzzer_timeout_or_oom']} "
+          f"inconclusive_workers={len(inconclusive)} wall_s={wall:.1f}")
     try:
         what = {f["id"]: f.get("what", "") for f in json.load(open(f"{VERIF}/known_findings.json")).get("findings", [])}
     except (OSError, ValueError):
@@ -220,7 +243,7 @@ def main():
         sys.exit(1)
     if inconclusive:
         for r in inconclusive[:3]:
-            print(f"INCONCLUSIVE: worker {r['worker']} rc={r['rc']} timeout_or_oom={r['timeout_or_oom']} self_check={r['self_check']}; see {work}/log-{r['worker']}.txt", file=sys.stderr)
+            print(f"INCONCLUSIVE: worker {r['worker']} rc={r['rc']} restarts_exhausted={r['restarts_exhausted']} self_check={r['self_check']}; see {work}/log-{r['worker']}-*.txt", file=sys.stderr)
         sys.exit(2)
     sys.exit(0)
 
